@@ -36,8 +36,8 @@ ASSUMPTIONS = [
     "AuxData bytes are not decoded by the loader (lazy), so corrupted table bytes are outside a returned IR's structural guarantees",
 ]
 REQUIRED_TAGS = {
-    "quick": ["mode:trunc", "mode:flip", "mode:byte", "mode:header", "mode:struct", "mode:random", "accepted", "rejected:gtirb", "struct:dup-uuid", "struct:enum", "struct:uuid-length"],
-    "thorough": ["mode:trunc", "mode:flip", "mode:byte", "mode:header", "mode:struct", "mode:random", "accepted", "rejected:gtirb", "struct:dup-uuid", "struct:enum", "struct:uuid-length"],
+    "quick": ["mode:trunc", "mode:flip", "mode:byte", "mode:header", "mode:struct", "mode:random", "accepted", "rejected:gtirb", "struct:dup-uuid", "struct:dup-uuid-thrice", "struct:enum", "struct:uuid-length", "scale:modules", "scale:edges"],
+    "thorough": ["mode:trunc", "mode:flip", "mode:byte", "mode:header", "mode:struct", "mode:random", "accepted", "rejected:gtirb", "struct:dup-uuid", "struct:dup-uuid-thrice", "struct:enum", "struct:uuid-length", "scale:modules", "scale:edges"],
 }
 MODES = ["trunc", "flip", "byte", "header", "struct", "random"]
 
@@ -492,9 +492,77 @@ def run_raw(case):
     return res
 
 
+SCALE = [("modules", 12000), ("symbols", 30000), ("blocks", 30000), ("edges", 20000)]
+
+
+def run_scale_case(case):
+    """'never hangs' at scale: a valid file with very many siblings of one
+    repeated field loads within the per-case limit (a loader that is quadratic
+    in a repeated field needs minutes here) and holds them all"""
+    import uuid as uuidmod
+
+    from gtirb.proto import IR_pb2
+
+    g = _gt()
+    res = pbt.CaseResult()
+    what, n = case["scale"], case["n"]
+    U = lambda i: uuidmod.UUID(int=(0x5CA1E << 96) | i).bytes  # noqa
+    msg = IR_pb2.IR()
+    msg.uuid = U(0)
+    msg.version = refmsg.proto_version()
+    if what == "modules":
+        for i in range(n):
+            m = msg.modules.add()
+            m.uuid = U(1 + i)
+            m.name = "m%d" % i
+    else:
+        m = msg.modules.add()
+        m.uuid = U(1)
+        if what == "symbols":
+            for i in range(n):
+                sy = m.symbols.add()
+                sy.uuid = U(2 + i)
+                sy.name = "s%d" % (i % 7)
+                sy.value = i
+        elif what == "blocks":
+            sec = m.sections.add()
+            sec.uuid = U(2)
+            bi = sec.byte_intervals.add()
+            bi.uuid = U(3)
+            bi.size = n
+            bi.has_address = True
+            for i in range(n):
+                b = bi.blocks.add()
+                b.offset = i
+                b.data.uuid = U(4 + i)
+                b.data.size = 1
+        else:
+            for i in range(n + 1):
+                m.proxies.add().uuid = U(2 + i)
+            for i in range(n):
+                e = msg.cfg.edges.add()
+                e.source_uuid = U(2 + i)
+                e.target_uuid = U(3 + i)
+    data = header() + msg.SerializeToString()
+    res.tag("scale:" + what)
+    res.nontrivial = True
+    ir = g.IR.load_protobuf_file(io.BytesIO(data))  # the case limit (SIGALRM) turns a stall into C17:hang
+    got = {"modules": lambda: len(ir.modules), "symbols": lambda: sum(1 for _ in ir.symbols),
+           "blocks": lambda: sum(1 for _ in ir.byte_blocks), "edges": lambda: len(ir.cfg)}[what]()
+    if got != n:
+        res.fail("C17:scale-file-lost-nodes", "%d %s in the file, %d in the IR" % (n, what, got))
+    res.sample = {"fault": "none (scale)", "file_hex": data[:48].hex() + "...", "bytes": len(data), "outcome": "accepted, %d %s" % (got, what)}
+    return res
+
+
 def run_job(job):
     if job.get("kind") == "fuzz":
         return run_fuzz_job(job)
+    if job.get("kind") == "scale":
+        from hypothesis import strategies as st
+
+        return pbt.run_hypothesis(st.sampled_from([{"scale": w, "n": n} for w, n in SCALE]), run_scale_case, prefix=ID,
+                                  n_examples=len(SCALE), seed=job["seed"], max_shrink_evals=0)
     return pbt.run_hypothesis(strategy(), run_case, prefix=ID, n_examples=job["n"], seed=job["seed"],
                               max_shrink_evals=job.get("shrink", 60))
 
@@ -502,6 +570,8 @@ def run_job(job):
 def replay(doc):
     if "raw" in doc["case"]:
         return run_raw(doc["case"])
+    if "scale" in doc["case"]:
+        return run_scale_case(doc["case"])
     return run_case(doc["case"])
 
 
@@ -509,6 +579,7 @@ def jobs(tier, seed):
     n, shards = (72, 8) if tier == "quick" else (6400, 16)
     out = [{"name": "seeds-%d" % k, "kind": "seeds", "n": n // shards, "seed": seed * 1000 + 170 + k,
             "shrink": 12 if tier == "quick" else 80} for k in range(shards)]
+    out.append({"name": "scale", "kind": "scale", "seed": seed})
     if tier == "thorough":
         # coverage-guided campaign: 8 processes, half of them from an empty corpus
         for k in range(8):
